@@ -2,6 +2,7 @@
 
 LAYER_DEFAULTS = {
     'tracer': {'quick': {'n': 60, 'size': 40, 'shards': 2}, 'thorough': {'n': 400, 'size': 120, 'shards': 16}},
+    'precompile': {'quick': {'n': 150, 'size': 20, 'shards': 2}, 'thorough': {'n': 3000, 'size': 20, 'shards': 16}},
     'journal': {'quick': {'n': 60, 'size': 20, 'shards': 2}, 'thorough': {'n': 400, 'size': 100, 'shards': 16}},
 }
 
@@ -17,12 +18,23 @@ TB_M2 = ['vm/instructions.go journal opcodes 0xe0-0xe7 and loadDataFromMem are m
 TB_GEN = ['fact extractor (go/extract.go): instruction tables and precompile maps read from the running code by reflection, '
           'declaration identity fork vs go-ethereum v1.12.0 by normalised go/ast; obligations over the regenerated tables closed by decide +kernel']
 
+TB_M3 = ['vm/contracts.go aspcontext/userOpSender/contextWriter/loadParamBytes and RunPrecompiledContract are modelled by hand '
+         '(Artela/Model/Precompile.lean); tied by running the exported table entries directly (with and without CloneWithCtx) and through real '
+         'CALL/CALLCODE/DELEGATECALL/STATICCALL bytecode at depth 1-3 on forks either side of Berlin, host callbacks logging their arguments',
+         'ABI dynamic-bytes encoding as written in Artela/Spec/Abi.lean (abiBytes), and independently in the Go harness (abiEncode2)']
+
 PROPS = {
     'C09': {
         'modules': ['Artela.Props.C09'],
         'runs': [{'layer': 'journal'}],
         'trusted_base': TB_M1 + TB_M2 + ['Solidity storage layout as written in Artela/Spec/Solidity.lean (solPacked, solString) and, independently, in the Go harness (putString)'],
         'assumptions': ['storage words are < 2^256 (common.Hash)', 'Go append returns capacity >= length'],
+    },
+    'C14': {
+        'modules': ['Artela.Props.C14', 'Artela.Proofs.GenFacts'],
+        'runs': [{'layer': 'precompile'}],
+        'trusted_base': TB_M3 + TB_GEN,
+        'assumptions': ['a Go slice is shorter than 2^63 bytes', 'host callbacks are arbitrary functions of their arguments (scripted in the harness)'],
     },
     'C12': {
         'modules': ['Artela.Props.C12', 'Artela.Proofs.GenFacts'],
@@ -38,9 +50,9 @@ PROPS = {
         'partial': 'c20_full is FALSE for the current code (c20_witness_reference_unbounded); proved: c20_partial, c20_value_journal, c20_value_key_journals, c20_key_journal_partial, c20_reference_journal_partial. Known findings D5 (VRJNAL) and D7 (memory-keyed registrations).',
     },
     'C03': {
-        'modules': ['Artela.Props.C03'],
-        'runs': [{'layer': 'journal'}],
-        'trusted_base': TB_M1 + TB_M2,
+        'modules': ['Artela.Props.C03', 'Artela.Props.C14'],
+        'runs': [{'layer': 'journal'}, {'layer': 'precompile'}],
+        'trusted_base': TB_M1 + TB_M2 + TB_M3,
         'assumptions': ['inherited instructions are panic-free on an initialised host (identity-checked against go-ethereum v1.12.0, not modelled)',
                         'memory length <= 2^47 (memory expansion gas caps it at 0x1FFFFFFFE0 words)'],
         'partial': 'c03_partial: Artela-added code (journal opcodes so far) modelled and proved panic-free; inherited instruction bodies assumed',
